@@ -23,6 +23,16 @@ def format_number(n, n_type):
             desired_total_digits = 7
             n = round(n, ndigits=desired_total_digits-before_decimal)
     s = str(n)
+    if n_type == CellType.DOUBLE and isinstance(n, float):
+        # str() gives the shortest text that reads back as n. it
+        # need not be the nearest numeral of its length (2# ^ -44:
+        # 5.684341886080802e-14 is 0.51 units of its last digit
+        # away); the 17-digit text always is.
+        digits = s.lstrip('-').split('e')[0].replace('.', '').lstrip('0')
+        if digits:
+            nearest = '%.*e' % (len(digits) - 1, abs(n))
+            if nearest.split('e')[0].replace('.', '') != digits:
+                s = '%.17g' % n
     if n_type == CellType.SINGLE and 'e' in s:
         # exponent form: seven significant digits as well (str()
         # shows the digits of the value widened to a double)
